@@ -84,6 +84,14 @@ def ttlOf (d : Int) : Int :=
   else if remaining < Gen.C30.keylessPositiveTTL then remaining
   else Gen.C30.keylessPositiveTTL
 
+/-- can `ttlOf d = t` for some clock reading with `NotAfter − now = d ∈ [d1, d0]`? (decision procedure used
+by the driver for the loader, which reads the clock itself; proved exact in Props: `ttlReachable_iff`) -/
+def ttlReachable (d1 d0 t : Int) : Bool :=
+  (t == second && decide (d1 - Gen.C30.keylessExpirySkew ≤ 0))
+  || (decide (0 < t) && decide (t < Gen.C30.keylessPositiveTTL)
+        && decide (d1 ≤ t + Gen.C30.keylessExpirySkew) && decide (t + Gen.C30.keylessExpirySkew ≤ d0))
+  || (t == Gen.C30.keylessPositiveTTL && decide (Gen.C30.keylessPositiveTTL ≤ d0 - Gen.C30.keylessExpirySkew))
+
 /-- `computeKeylessTTL`: `none` = nil certificate / no leaf and first chain element does not parse -/
 def computeTTL : Option Int → Int
   | none => Gen.C30.keylessPositiveTTL
